@@ -104,10 +104,12 @@ Theorem inv_step_refuted_alias_after_delete : exists s o, inv_full s = true /\ a
 Proof. exists (w_inter_pre pinned), w_inter_op. pose proof w_inter; tauto. Qed.
 Theorem inv_step_refuted_cross_container_cache : exists s o, inv_full s = true /\ cache_consistent (fst (step pinned s o)) = false.
 Proof. exists (w_xcache_pre pinned), w_xcache_op. exact w_xcache. Qed.
-(* with the proposed repair C15-13 the first witness keeps the full invariant *)
-Theorem proposed_repair_closes_witness :
-  inv_full (fst (step fixed (w_inter_pre fixed) w_inter_op)) = true.
-Proof. pose proof w_inter; tauto. Qed.
+(* with the proposed repair C15-13 the first witness keeps the full invariant; with C15-14 a subfield
+   added through a '.'-prefixed parent code does (on the current tree that call is outside the model) *)
+Theorem proposed_repairs_close_witnesses :
+  inv_full (fst (step fixed (w_inter_pre fixed) w_inter_op)) = true /\
+  inv_full (fst (step fixed (w_dotpar_pre fixed) w_dotpar_op)) = true.
+Proof. pose proof w_inter; pose proof w_dotpar; tauto. Qed.
 
 (* --- regression: the ten sequences that broke the invariant before the repairs in /repo --- *)
 Theorem repaired_witnesses_keep_full_invariant :
